@@ -63,7 +63,7 @@ Val dyadic16(Rng & r, long k) {
     if (style == 4 && s.size() > 1 && s[0] == '0' && s[1] == '.') s = s.substr(1);
     if (style == 5 && k >= 0) s = "+" + s;
     if (style == 6) s += "e0";
-    if (style == 7) { std::snprintf(buf, sizeof buf, "%.3fe1", x / 10.0 * 1.0); /* k/160 is not dyadic in 3 digits: avoid */ s = s; }
+    if (style == 7 && k >= 0 && r.coin(1, 3)) { std::snprintf(buf, sizeof buf, r.coin() ? "0x%lxp-4" : "0X%lX.0P-4", (unsigned long)k); s = buf; }  // hexadecimal float, exact
     if (s.empty() || s == "+" || s == "-") s = "0";
     return mkVal(s);
 }
